@@ -18,19 +18,20 @@ import (
 
 // Meta is the part of every scenario that decides the schedule.
 type Meta struct {
-	Seed     uint64 `json:"seed"`     // scenario generation seed (informational once generated)
-	Sched    uint64 `json:"sched"`    // schedule seed
-	Strategy string `json:"strategy"` // uniform | pct | sticky | starve
-	SlackMs  int    `json:"timer_slack_ms,omitempty"`
-	Class    string `json:"class,omitempty"` // scenario class within the profile
-	Dense    bool   `json:"dense,omitempty"` // preemption between plain statements everywhere in the code under test
-	Full     bool   `json:"-"`               // keep the full choice trace (set when a violation is re-run for its report)
+	Seed       uint64   `json:"seed"`     // scenario generation seed (informational once generated)
+	Sched      uint64   `json:"sched"`    // schedule seed
+	Strategy   string   `json:"strategy"` // uniform | pct | sticky | starve
+	SlackMs    int      `json:"timer_slack_ms,omitempty"`
+	Class      string   `json:"class,omitempty"`       // scenario class within the profile
+	Dense      bool     `json:"dense,omitempty"`       // preemption between plain statements everywhere in the code under test
+	DenseFuncs []string `json:"dense_funcs,omitempty"` // functions always included when Dense
+	Full       bool     `json:"-"`                     // keep the full choice trace (set when a violation is re-run for its report)
 }
 
 func (m *Meta) GetMeta() *Meta { return m }
 
 func (m *Meta) Options() simrt.Options {
-	return simrt.Options{Seed: m.Sched, Strategy: m.Strategy, TimerSlack: time.Duration(m.SlackMs) * time.Millisecond, FullTrace: m.Full, Dense: m.Dense}
+	return simrt.Options{Seed: m.Sched, Strategy: m.Strategy, TimerSlack: time.Duration(m.SlackMs) * time.Millisecond, FullTrace: m.Full, Dense: m.Dense, DenseFuncs: m.DenseFuncs}
 }
 
 // GenMeta draws strategy and knobs (swarm style).
